@@ -362,6 +362,7 @@ class Check:
         }
         # evidence/ holds runs against /repo itself; runs against another tree (VERIF_REPO) go to .scratch/
         evdir = os.path.join(VERIF, "evidence") if os.path.realpath(REPO) == "/repo" else os.path.join(VERIF, ".scratch", "evidence-other-tree")
+        evdir = os.environ.get("VERIF_EVIDENCE_DIR") or evdir
         os.makedirs(evdir, exist_ok=True)
         path = os.path.join(evdir, f"{self.prop}.json")
         with open(path + ".tmp", "w") as f:
